@@ -939,3 +939,117 @@ def r_swap(E):
                     "signatures_indexed": len(sigs)}]
     res.floor = 200
     return res
+
+
+# ---------------------------------------------------------------------------------------------- R-DEDUPSKIP
+_DS_POSITIVE = '''
+def infrastructure(usage_patterns):
+    servers, networks, visited = set(), set(), set()
+    for usage_pattern in usage_patterns:
+        usage_journey = usage_pattern.usage_journey
+        if usage_journey in visited:
+            continue
+        visited.add(usage_journey)
+        networks.add(usage_pattern.network)
+        servers.update(usage_journey.servers)
+    return servers, networks
+'''
+_DS_NEGATIVE = '''
+def infrastructure(usage_patterns):
+    servers, networks, visited = set(), set(), set()
+    for usage_pattern in usage_patterns:
+        networks.add(usage_pattern.network)
+        usage_journey = usage_pattern.usage_journey
+        if usage_journey in visited:
+            continue
+        visited.add(usage_journey)
+        servers.update(usage_journey.servers)
+    return servers, networks
+def distinct(xs):
+    seen, out = set(), []
+    for x in xs:
+        if x.id in seen:
+            continue
+        seen.add(x.id)
+        out.append(x)
+    return out
+'''
+_COLLECT = {"add", "update", "append", "extend"}
+
+
+def dedup_skips(tree):
+    """[(loop, skip, collecting statement)]: inside a loop over elements, `if A in S: continue` + `S.add(A)` (each A is
+    handled once) followed by a statement that collects, into another collection, something of the *element* that is not
+    a function of A: two elements with the same A can differ in it, and the second one's is never collected"""
+    out = []
+    for loop in ast.walk(tree):
+        if not isinstance(loop, ast.For):
+            continue
+        elem = _bound_names(loop.target)
+        body = loop.body
+        for i, st in enumerate(body):
+            if not (isinstance(st, ast.If) and not st.orelse and len(st.body) == 1 and isinstance(st.body[0], ast.Continue)
+                    and isinstance(st.test, ast.Compare) and len(st.test.ops) == 1 and isinstance(st.test.ops[0], ast.In)
+                    and isinstance(st.test.comparators[0], ast.Name)):
+                continue
+            seen, key = st.test.comparators[0].id, st.test.left
+            marks = [s for s in body[i + 1:] if isinstance(s, ast.Expr) and isinstance(s.value, ast.Call)
+                     and isinstance(s.value.func, ast.Attribute) and s.value.func.attr == "add"
+                     and isinstance(s.value.func.value, ast.Name) and s.value.func.value.id == seen
+                     and len(s.value.args) == 1 and norm(s.value.args[0]) == norm(key)]
+            if not marks:
+                continue
+            # names that are functions of the key: the key's own names (unless they are the element itself) and the locals
+            # assigned, in the loop, from expressions that read them
+            of_key = {x.id for x in ast.walk(key) if isinstance(x, ast.Name)} - elem
+            if not of_key:
+                continue      # the key is spelled from the element directly (x.id): anything of the element may depend on it
+            grew = True
+            while grew:
+                grew = False
+                for s in body:
+                    if isinstance(s, ast.Assign) and any(isinstance(x, ast.Name) and x.id in of_key for x in ast.walk(s.value)):
+                        for t in s.targets:
+                            for x in ast.walk(t):
+                                if isinstance(x, ast.Name) and x.id not in of_key:
+                                    of_key.add(x.id)
+                                    grew = True
+            for s in body[i + 1:]:
+                if s in marks or not (isinstance(s, ast.Expr) and isinstance(s.value, ast.Call)
+                                      and isinstance(s.value.func, ast.Attribute) and s.value.func.attr in _COLLECT
+                                      and isinstance(s.value.func.value, ast.Name) and s.value.args):
+                    continue
+                read = {x.id for a in s.value.args for x in ast.walk(a) if isinstance(x, ast.Name)}
+                if read & elem and not (read & of_key):
+                    out.append((loop, st, s))
+    return out
+
+
+@rule("R-DEDUPSKIP")
+def r_dedupskip(E):
+    pm = E.pm
+    res = RuleResult("R-DEDUPSKIP", "a loop that handles each key once (`if key in seen: continue`) does not, after that skip, "
+                                    "collect something of the element that is not a function of the key: the elements that "
+                                    "share a key with an earlier one would never contribute it (the network of a usage "
+                                    "pattern whose journey was already visited)")
+    for mod, (rel, tree, src) in sorted(pm.modules.items()):
+        res.instances += len([n for n in ast.walk(tree) if isinstance(n, ast.For)])
+        for loop, skip, st in dedup_skips(tree):
+            fn = loop
+            while fn is not None and not isinstance(fn, ast.FunctionDef):
+                fn = getattr(fn, "_parent", None)
+            q = fn.name if fn is not None else "<module>"
+            res.findings.append(Finding(
+                "R-DEDUPSKIP", f"{rel}:{q} :: {norm(st)[:60]}",
+                f"{q}: `{norm(st)[:60]}` comes after `{norm(skip.test)[:50]}: continue`, but what it collects does not "
+                f"depend on `{norm(skip.test.left)[:30]}`: an element whose `{norm(skip.test.left)[:30]}` was already seen "
+                f"is skipped before it contributes — its part is missing from the collection (and from whatever is "
+                f"summed over it)", rel, st.lineno, q, {"clauses": _area(rel)}))
+    pos = dedup_skips(set_parents(ast.parse(_DS_POSITIVE)))
+    neg = dedup_skips(set_parents(ast.parse(_DS_NEGATIVE)))
+    if len(pos) != 1 or neg:
+        raise AnalysisError(f"R-DEDUPSKIP: embedded examples: {len(pos)} of 1 positive recognised, {len(neg)} false reports")
+    res.instances += 1
+    res.samples = [{"embedded_positive_examples_recognised": 1, "embedded_twins_silent": True}]
+    res.floor = 40
+    return res
